@@ -612,14 +612,16 @@ def concrete_job(pk, job):
     params, values = job["params"], job["values"]
     inp = ConcInputs(values)
     lg = ConcLogic()
-    ans = {"exception": None, "outputs": None, "failed": [], "assumptions_ok": True}
+    ans = {"exception": None, "outputs": None, "failed": [], "assumptions_ok": True, "nonfinite": []}
     try:
         ass = mod.setup(params, inp, lg)
         ans["assumptions_ok"] = all(bool(a) for a in ass)
         out = mod.scenario(pk, params, inp)
         if inp.assumption_failed:
             ans["assumptions_ok"] = False
-        ans["outputs"] = {k: leaf_to_json(v) for k, v in flatten(out).items()}
+        flat = flatten(out)
+        ans["nonfinite"] = sorted(k for k, v in flat.items() if isinstance(v, (float, np.floating)) and (v != v or abs(v) == float("inf")))[:8]
+        ans["outputs"] = {k: leaf_to_json(v) for k, v in flat.items()}
         cl = list(mod.claims(params, inp, out, lg))
         if hasattr(mod, "canaries"):
             cl += list(mod.canaries(params, inp, out, lg))
@@ -673,6 +675,7 @@ sys.path[:0] = [{verif!r}, os.path.join({verif!r}, ".deps")]
 os.environ.setdefault("VERIF_HEAVY", {heavy!r})
 JOB = json.loads({job!r})
 CLAIM = {claim!r}
+EXPECT = {expect!r}       # exception type seen in exact arithmetic (ZeroDivisionError there = nan / inf in float64)
 from symx import bootstrap
 from harness import common
 pk = bootstrap.load(symbolic=False, heavy={heavy!r} == "1")
@@ -685,20 +688,23 @@ else:
     print("outputs :", json.dumps(ans["outputs"])[:4000])
     print("failed claims:", ans["failed"])
 print("input assumptions hold:", ans["assumptions_ok"])
-hit = ((CLAIM == "no-exception" and ans["exception"] is not None) or (CLAIM in ans["failed"])) and ans["assumptions_ok"]
+if ans.get("nonfinite"):
+    print("non-finite outputs:", ans["nonfinite"])
+hit = ((CLAIM == "no-exception" and ans["exception"] is not None) or (CLAIM in ans["failed"])
+       or (CLAIM == "no-exception" and EXPECT == "ZeroDivisionError" and bool(ans.get("nonfinite")))) and ans["assumptions_ok"]
 print("REPRODUCED" if hit else "NOT REPRODUCED", "-", CLAIM)
 sys.exit(1 if hit else 0)
 '''
 
 
-def write_replay(pid, module, params, values, claim, heavy):
+def write_replay(pid, module, params, values, claim, heavy, expect=None):
     os.makedirs(os.path.join(VERIF, "replays"), exist_ok=True)
     job = {"module": module, "params": params, "values": values}
     h = hashlib.sha1(json.dumps([job, claim], sort_keys=True).encode()).hexdigest()[:10]
     path = os.path.join(VERIF, "replays", f"{pid}-{_slug(claim)}-{h}.py")
     with open(path, "w") as f:
         f.write(REPLAY_TEMPLATE.format(pid=pid, claim=claim, module=module, verif=VERIF,
-                                       heavy="1" if heavy else "0", job=json.dumps(job)))
+                                       heavy="1" if heavy else "0", job=json.dumps(job), expect=expect))
     return path
 
 
